@@ -110,6 +110,10 @@ def parse_ep(ep: str) -> Optional[Tuple[str, Tuple[int, int, int]]]:
 
 
 def ref_ep(ref) -> str:
+    # tolerant of representation changes of in-memory bookkeeping (anything that is not a reference is shown as text,
+    # which then simply differs from the expected entry-point names instead of crashing the driver)
+    if not (hasattr(ref, "name") and hasattr(ref, "version")):
+        return f"<not-a-ref:{ref!r}>"
     return ep_of(ref.name, ref.version)
 
 
@@ -887,7 +891,8 @@ def toc_inv_mem(S, mc) -> List[Tuple[str, str]]:
         V.append(("3:schemas-mem", f"_schemas={got['schemas']} schema groups={exp['schemas']} in use={exp['used_eps']}"))
     if got["pkgs"] != exp["pkgs"]:
         V.append(("4:pkginfos-mem", f"_pkginfos keys={sorted(got['pkgs'])} stored records={sorted(exp['pkgs'])} (or contents differ)"))
-    if got["used"] != exp["used"]:
+    uninterpretable = any("<not-a-ref:" in x for v in got["used"].values() for x in v)
+    if got["used"] != exp["used"] and not uninterpretable:  # an unknown internal representation is not judged (only behaviour is)
         V.append(("4:used-mem", f"_used={got['used']} expected from raw tree {exp['used']}"))
     if got["providers"] != exp["providers"]:
         V.append(("4:providers-mem", "_providers differs from stored package records"))
@@ -1866,6 +1871,10 @@ def sweep_histories(tier: str, kind: str = "h5", seed: int = 0) -> List[list]:
                     ["attach", "/g", "vt.ver", [0, 2, 0], 1], ["attach", "/g/e", "vt.ver", [1, 0, 0], 0],
                     ["attach", "/", "vt.verkid", None, 0], ["reopen"], ["attach", "/d", "vt.verkid", None, 1],
                     ["copy", "/g", "/h", {}], ["detach", "/g", "vt.ver"], ["commit"], ["detach", "/d", "vt.ver"], ["reopen"]])  # fmt: skip
+        # several releases of ONE schema name are the only schemas in use; the last object of one release goes away
+        res.append([["mkds", "/d", 1], ["mkds", "/e", 1],
+                    ["attach", "/d", "vt.ver", [0, 1, 0], 0, {"env": [[0, 1, 0]]}], ["attach", "/e", "vt.ver", [1, 0, 0], 0],
+                    ["reopen"], ["detach", "/d", "vt.ver"], ["reopen"], ["attach", "/d", "vt.ver", [0, 2, 0], 1], ["detach", "/e", "vt.ver"], ["reopen"]])  # fmt: skip
     for si, ((n, v), info) in enumerate(sorted(FAMILY.items())):
         if not info.instances:
             continue
